@@ -300,10 +300,21 @@ func checkC13(c C13Case) (*Violation, []string, *caseInfo) {
 			artefact = append([]byte(nil), fs.Files[c.Artefact]...)
 			target = append([]byte(nil), fs.Files[c.Target]...)
 		}
+		var want Expect
+		if last && len(p.Faults) == 0 {
+			// what the library says about these very inputs, through the
+			// reference model of the CLI: if it returns an error, the process
+			// must report it with status 2
+			want = cliModel(p.Bin, p.Arg0, p.Argv, fs, stdinBytes(fs, p, prev))
+		}
 		res := runProc(fs, p, IOCfg{c.Sector, c.FileChunk, false}, prev)
 		log = append(log, eventLog(i, res)...)
 		prev = res.Stdout
 		info.Steps += len(res.Steps)
+		if last && want.Defined && want.Status == 2 && res.Crash == "" && !res.Killed && res.Code != 2 &&
+			(strings.HasPrefix(want.Why, "patch error") || strings.HasPrefix(want.Why, "translate error") || strings.HasPrefix(want.Why, "diff error")) {
+			return viol13("error-not-reported", where14(p, Expect{}), "`jd %s` exited with status %d although the library rejects these inputs (%s); malformed or mismatched input must end with status 2 and a message; stdout=%s", strings.Join(p.Argv, " "), res.Code, want.Why, show(res.Stdout)), log, info
+		}
 		if v := checkProc13(i, p, res); v != nil {
 			if last {
 				// attribute: does the library alone panic on the same bytes?
@@ -531,7 +542,20 @@ func genCase13(c *Chooser) C13Case {
 		}
 	}
 	var consumer ProcSpec
-	if c.Chance(4, 5) {
+	if c.Chance(1, 7) {
+		// the consumer diffs documents (one of which may be damaged, or is the
+		// artefact itself mistaken for a document), plainly or as git's driver
+		other := name(c.Int(k + 1))
+		if c.Chance(1, 4) {
+			other = "p"
+		}
+		if c.Chance(1, 2) {
+			consumer = ProcSpec{Bin: civ.bin, Argv: renderArgv(c, civ.flags(), []string{cs.Target, other})}
+		} else {
+			civ.v1 = false
+			consumer = ProcSpec{Bin: civ.bin, Argv: renderArgv(c, append(civ.flags(), flagSpec{name: "git-diff-driver"}), []string{"path", cs.Target, "abc", "100644", other, "def", "100644"})}
+		}
+	} else if c.Chance(4, 5) {
 		fl := append(civ.flags(), flagSpec{name: "p"})
 		if c.Chance(1, 4) {
 			fl = append(fl, flagSpec{"o", []string{"result", "result", "result", "nodir/result", "v0.json/result"}[c.Int(5)], true, false})
